@@ -93,7 +93,14 @@ func (tr *Translator) runBody(ct *Contract, full bool) {
 	for i, cl := range ct.Ensures {
 		env := tr.contractEnv(ct, ct.PostNames, append(append([]Val{}, args...), res...), out, f.entry)
 		g := tr.specBool(cl, env)
-		c.addObl(&Obligation{Name: fmt.Sprintf("%s#post.%d", ct.Qual, i+1), Kind: "post", Guard: out.guard, Goal: g, Pos: cl.Text, Func: ct.Qual})
+		o := &Obligation{Name: fmt.Sprintf("%s#post.%d", ct.Qual, i+1), Kind: "post", Guard: out.guard, Goal: g, Pos: cl.Text, Func: ct.Qual}
+		if len(f.rets) > 1 && len(f.rets) <= 64 && len(ct.Ghosts) == 0 {
+			for _, r := range f.rets {
+				renv := tr.contractEnv(ct, ct.PostNames, append(append([]Val{}, args...), r.vals...), r.st, f.entry)
+				o.Cases = append(o.Cases, oblCase{Guard: r.st.guard, Goal: tr.specBool(cl, renv)})
+			}
+		}
+		c.addObl(o)
 	}
 	// global invariants are re-established when the function wrote something they read
 	if len(tr.writeLog) > 0 {
